@@ -30,7 +30,7 @@ Inductive fkind := KPlain | KBinary | KTransient.
 (* default values / default_factory results of fields *)
 Inductive lit :=
 | LNone | LInt (z : Z) | LStr (s : list N) | LBytes (b : list N) | LBool (b : bool) | LFloat (bits : N)
-| LEmptyList | LEmptySet | LEmptyDict.
+| LEmptyList | LEmptySet | LEmptyDict | LEnum (e : N) (name : list N).
 
 Inductive ty : Type :=
 | TScalar (s : scalar)
@@ -186,6 +186,7 @@ Definition pv_of_lit (d : lit) : pv :=
   match d with
   | LNone => VNone | LInt z => VInt z | LStr s => VStr s | LBytes b => VBytes b | LBool b => VBool b
   | LFloat x => VFloat x | LEmptyList => VList [] | LEmptySet => VSet [] | LEmptyDict => VDict []
+  | LEnum e n => VEnum e n
   end.
 
 Definition mk_set (l : list pv) : res pv :=               (* frozenset(l) *)
@@ -731,6 +732,7 @@ Definition lit_is (d : lit) (x : pv) : bool :=       (* x is the value pv_of_lit
   | LBool b, VBool b' => Bool.eqb b b'
   | LFloat x, VFloat x' => x =? x'
   | LEmptyList, VList [] | LEmptySet, VSet [] | LEmptyDict, VDict [] => true
+  | LEnum e n, VEnum e' n' => (e =? e') && (if list_eq_dec N.eq_dec n n' then true else false)
   | _, _ => false
   end.
 Definition lit_eqb (a b : lit) : bool := lit_is a (pv_of_lit b).
